@@ -31,7 +31,7 @@ type point struct {
 	Guard     bool `json:"guardmem"`
 	NoDebug   bool `json:"nodebug"`
 	Custom    bool `json:"custom"`
-	Listeners int  `json:"listeners"` // 0 none, 1 all, 2 subset
+	Listeners int  `json:"listeners"` // 0 none, 1 all, 2 subset, 3 factory installed but returns nil for every function
 	CloseCtx  bool `json:"closectx"`
 	Compiler  bool `json:"compiler"`
 }
@@ -67,7 +67,7 @@ func allPoints() []point {
 	var out []point
 	for cache := 0; cache < len(cacheNames); cache++ {
 		for b := 0; b < 32; b++ {
-			for l := 0; l < 3; l++ {
+			for l := 0; l < 4; l++ {
 				for e := 0; e < 2; e++ {
 					out = append(out, point{Cache: cache, CapMax: b&1 != 0, Guard: b&2 != 0, NoDebug: b&4 != 0, Custom: b&8 != 0, CloseCtx: b&16 != 0, Listeners: l, Compiler: e == 1})
 				}
@@ -164,7 +164,7 @@ func run(c *core.Ctx) int {
 	c.Assume("error message text (stack traces) legitimately differs with debug info on/off: only the error class enters the trace")
 	c.Assume("listener callbacks are not part of the guest trace (that is C20); memory limit and core features are semantic and held fixed")
 	return c.Finish(evals, int64(c.DistinctN("pairs")),
-		fmt.Sprintf("full lattice of %d configuration points (8 cache modes x capacity-from-max x guard-page allocator x debug info x custom sections x close-on-context-done x 3 listener sets x 2 engines) for %d programs, plus %d PRNG (program, point) pairs; each pair: canonical guest trace at the point vs at the base point; non-trivial = traces compared with >=1 event", len(pts), nFull, nPairs))
+		fmt.Sprintf("full lattice of %d configuration points (8 cache modes x capacity-from-max x guard-page allocator x debug info x custom sections x close-on-context-done x 4 listener settings (none, all, subset, factory returning nil for all) x 2 engines) for %d programs, plus %d PRNG (program, point) pairs; each pair: canonical guest trace at the point vs at the base point; non-trivial = traces compared with >=1 event", len(pts), nFull, nPairs))
 }
 
 type countListener struct{ n *int }
@@ -178,10 +178,11 @@ func (l countListener) Abort(context.Context, api.Module, api.FunctionDefinition
 type factory struct {
 	n      *int
 	subset bool
+	none   bool
 }
 
 func (f factory) NewFunctionListener(d api.FunctionDefinition) experimental.FunctionListener {
-	if f.subset && d.Index()%2 == 1 {
+	if f.none || (f.subset && d.Index()%2 == 1) {
 		return nil
 	}
 	return countListener{f.n}
@@ -197,7 +198,7 @@ func options(pt point, cache wazero.CompilationCache, events *int) (wrun.Options
 		cleanup = ga.FreeAll
 	}
 	if pt.Listeners > 0 {
-		ctx = experimental.WithFunctionListenerFactory(ctx, factory{n: events, subset: pt.Listeners == 2})
+		ctx = experimental.WithFunctionListenerFactory(ctx, factory{n: events, subset: pt.Listeners == 2, none: pt.Listeners == 3})
 	}
 	o := wrun.Options{Compiler: pt.Compiler, Ctx: ctx}
 	o.RuntimeConfig = func(rc wazero.RuntimeConfig) wazero.RuntimeConfig {
@@ -283,7 +284,7 @@ func child(mode string, in json.RawMessage) any {
 		// runtime A with *different* other settings touches the shared cache first
 		ptA := pt
 		if pc.Prog&1 == 1 { // otherwise A and B have the same listener pattern (same module identity)
-			ptA.Listeners = (pt.Listeners + 1) % 3
+			ptA.Listeners = (pt.Listeners + 1) % 4
 		}
 		ptA.NoDebug, ptA.Custom, ptA.CapMax = !pt.NoDebug, !pt.Custom, !pt.CapMax
 		var evA int
@@ -315,7 +316,7 @@ func child(mode string, in json.RawMessage) any {
 		}
 		ptA := pt
 		if pc.Prog&1 == 1 {
-			ptA.Listeners = (pt.Listeners + 1) % 3
+			ptA.Listeners = (pt.Listeners + 1) % 4
 		}
 		var evA int
 		oA, cleanupA := options(ptA, cache, &evA)
@@ -386,7 +387,7 @@ func culprit(p *wgen.Program, script []wrun.Step, pt point) string {
 		q    point
 	}{
 		{"in-memory-cache", point{Cache: 1}}, {"capFromMax", point{CapMax: true}}, {"guardmem", point{Guard: true}}, {"debugInfoOff", point{NoDebug: true}},
-		{"customSections", point{Custom: true}}, {"listeners-all", point{Listeners: 1}}, {"listeners-subset", point{Listeners: 2}}, {"closeOnCtxDone", point{CloseCtx: true}},
+		{"customSections", point{Custom: true}}, {"listeners-all", point{Listeners: 1}}, {"listeners-subset", point{Listeners: 2}}, {"listeners-nil-for-all", point{Listeners: 3}}, {"closeOnCtxDone", point{CloseCtx: true}},
 	}
 	for _, s := range single {
 		q := s.q
